@@ -149,6 +149,7 @@ specs["C08"] = {"runs": c08 + [
     run(CMD + "balance:Harness_reports_agree", QT, {"D": 1, "E": 2}, "real", owned=["no-panic"]),
     run("parser:Harness_parse_flaky", QT, {"R": 2}, owned=["no-panic"]),
     run("cmd/hranoprovod-cli:Harness_app_bad_input", QT, {}, owned=["no-panic"], note="whole application on malformed and unreadable files"),
+    run("cmd/hranoprovod-cli:Harness_main_exit_status", QT, {}, owned=["no-panic"], note="main() under every scenario"),
     run("cmd/hranoprovod-cli:Harness_app_settings", Q, {"full": 0}, owned=["no-panic"], note="whole application under every source combination of the settings"),
  ], "assumptions": ["implicit assertions on every explored path: nil dereference, index and slice bounds, failed type assertion, integer division by zero, explicit panic; termination = every path ends within the step and call-depth budgets"],
  "outside_claim": ["arbitrary flag shapes (urfave/cli)", "lines longer than the bound", "stack exhaustion as such for the default limit 10 (recursion depth is bounded by construction, shown for N<=4)", "regexp compilation of --single-food"],
@@ -162,13 +163,15 @@ specs["C09"] = {"runs": [ls(c, Q, q, ["malformed-"]) for c in (5, 6)] + [ls(c, T
     run(CMD + "csv:Harness_csv_database_malformed", QT, {"k": 2}, owned=["malformed-", "no-panic"]),
     run(CMD + "csv:Harness_csv_resolved_malformed", QT, {"k": 2}, owned=["malformed-", "no-panic"], cover=["ran"]),
     run(CMD + "stats:Harness_stats_malformed", QT, {"k": 2}, owned=["malformed-", "no-panic"]),
+    run("cmd/hranoprovod-cli:Harness_main_exit_status", QT, {}, owned=["malformed-input-is-nonzero-exit"], cover=["ran"], note="the program's own main(): a malformed line in the files a command reads gives a non-zero exit status (lint's status is not asserted)"),
     run("cmd/hranoprovod-cli:Harness_app_bad_input", QT, {}, owned=["malformed-", "well-formed-"], cover=["ran"], note="whole application: each of 15 file-reading command variants with a malformed line planted in the log or the book: GetApp().Run returns an error quoting the line and its number"),
  ], "assumptions": [PF, "malformed = an indented line whose body has no blank at all (bad syntax), or whose value token starts with a byte that occurs in no Go float literal (bad number)"],
- "outside_claim": ["process exit status (main is `if err != nil { log.Fatal(err) }`)", "stderr text"], "stubs": [REALSTD, FMT]}
+ "outside_claim": ["stderr text", "lint's exit status when it found malformed lines (it returns nil: the property states what lint prints, not its status)"], "stubs": [REALSTD, FMT]}
 
 specs["C10"] = {"runs": [
     run("parser:Harness_parse_flaky", QT, {"R": 3}, cover=["truncated", "complete"], note="reader fails at every byte offset of files of 1..3 records, chunk sizes 1/7/4096, with and without a final EOL"),
     run(CMD + "utils:Harness_walk_flaky", QT, {}, cover=["truncated", "complete"], note="WalkNodesInStream with and without a period over a reader failing at every offset"),
+    run("cmd/hranoprovod-cli:Harness_main_exit_status", QT, {}, owned=["unreadable-input-is-nonzero-exit"], cover=["ran"], note="the program's own main(): files that are directories give a non-zero exit status"),
     run("cmd/hranoprovod-cli:Harness_app_bad_input", QT, {}, owned=["unreadable-"], cover=["ran"], note="whole application: each of 15 file-reading command variants with the log or the book being a directory (open succeeds, every read fails)"),
     run("parser:Harness_parse_long_line", QT, {}, cover=["long"], max_steps=60000000, note="a 70 000-byte line: the real bufio.ErrTooLong path, executed concretely"),
  ], "assumptions": ["the OS is represented as `Read returns (n, err)`: EISDIR, permissions etc. are a non-EOF error from Read"],
@@ -237,8 +240,9 @@ specs["C16"] = {"runs": [
 
 specs["C17"] = {"runs": [
     run(CMD + "balance:Harness_failing_output", QT, {}, owned=["lost-output-is-error", "complete-output-succeeds", "something-written"], cover=["ran"], note="19 command variants x sink failing from its 1st/2nd/3rd write or never"),
+    run("cmd/hranoprovod-cli:Harness_main_exit_status", QT, {}, owned=["lost-output-is-nonzero-exit", "exit-0-on-success"], cover=["ran"], note="the program's own main(): os.Args, GetApp().Run, log.Fatal, exit status; standard output healthy / a full device (ENOSPC on every write) / a closed pipe (SIGPIPE kills the process unless the program ignores it, then EPIPE) x 16 commands; natively the real binary is re-executed with /dev/full and a closed pipe"),
     run("cmd/hranoprovod-cli:Harness_app_failing_stdout", QT, {}, owned=["lost-output-is-error", "complete-output-succeeds"], cover=["ran"], note="whole application: 16 command variants writing to the process's standard output (os.Stdout) which rejects every write: GetApp().Run returns an error"),
- ], "assumptions": [BUFIO, CSVW, TMPL], "outside_claim": ["/dev/full, closed pipes, exit status (main is `if err -> log.Fatal`)", "reports longer than bufio's 4096-byte buffer (write-through before Flush)"],
+ ], "assumptions": [BUFIO, CSVW, TMPL], "outside_claim": ["reports longer than bufio's 4096-byte buffer (write-through before Flush)", "sinks failing from a byte offset inside a write"],
  "stubs": [FMT, TIME, "os.Open: virtual FS"]}
 
 specs["C18"] = {"runs": [
